@@ -164,8 +164,14 @@ def check_policy(w, sc, roles, what):
             exp = GR.expected_ignores(md)
             have = set(e['path'] for p, ents in by_dir[md] for e in ents if e['tag'] == 'IGNORE')
             miss = [i for i in exp if i not in have]
+            extra = sorted(have - set(exp))
             if miss:
                 vs.append(viol('policy.default-ignore', '%s: %s/Manifest lacks IGNORE %r' % (what, md, miss), sig=md or 'top'))
+            if extra:
+                # every Manifest of a role-built repository is created by the profile: nothing but the
+                # documented defaults may be ignored
+                vs.append(viol('policy.undocumented-ignore', '%s: %s/Manifest ignores %r, documented defaults are %r' % (
+                    what, md, extra, list(exp)), sig=md or 'top'))
     # tags + placement of file entries
     entries = {}
     for p, ents in inuse.items():
